@@ -184,7 +184,7 @@ PROPS = {
             "relations": [("binarizer_vs_preconverted", REL.gen_c14, REL.run_c14, (200, 3000))],
             "rule": "Thompson Sampling with threshold / flip / greater-than binarizers alone and under Radius, KNearest, LSHNearest, Clusters, TreeBandit; "
                     "add_arm may install a new binarizer; twin bandit without binarizer is fed the converted rewards; non-trivial = >= 1 training call"},
-    "C15": {"gen": g_any, "fields": ("out", "arms"), "functional": False, "n": (100, 1000),
+    "C15": {"gen": g_any, "fields": ("out", "arms"), "functional": False, "n": (40, 400), "simcorr": (160, 2500),
             "relations": [("simulator_vs_public_api", REL.gen_c15, REL.run_c15, (120, 1500))],
             "rule": "random data sets (20-70 rows, arms absent from train or test), 1-3 bandits per simulation (context-free, linear, Radius/KNearest with nine metrics incl. "
                     "seuclidean / mahalanobis, LSH, Clusters, TreeBandit), test_size, ordered / random split, batch_size in {0,1,k,|test|}, is_quick; predictions compared with an "
@@ -322,6 +322,10 @@ def run_correspondence(prop, spec, tier, seed, stats, samples, distinct, dist):
             bad.append({"why": d[:5], "case": strip(c), "theorem_pinning_the_model_value": "coq/props/%s.v" % prop})
         if len(samples) < 2:
             samples.append({"correspondence_case": abbreviate(c), "outputs_head": [str(o)[:160] for o, _ in traces[i][:3]]})
+    if spec.get("simcorr"):
+        # the Simulator itself (drivers + simulator-specific neighbourhood classes) against the model SimRun.v
+        import simcorr
+        bad += simcorr.run_simcorr(budget(tier, *spec["simcorr"]), seed, tier, stats, dist, distinct, samples, prop=prop)
     return bad
 
 def strip(c):
